@@ -50,7 +50,7 @@ namespace pika::util::detail {
 
     function_base::~function_base() { destroy(); }
 
-    void function_base::op_assign(function_base const& other, vtable const* /* empty_vtable */)
+    void function_base::op_assign(function_base const& other, vtable const* empty_vtable)
     {
         if (vptr == other.vptr)
         {
@@ -58,19 +58,33 @@ namespace pika::util::detail {
             {
                 PIKA_ASSERT(other.object != nullptr);
                 // reuse object storage
-                object = vptr->copy(object, std::size_t(-1), other.object, /*destroy*/ true);
+                try
+                {
+                    object = vptr->copy(object, std::size_t(-1), other.object, /*destroy*/ true);
+                }
+                catch (...)
+                {
+                    // the old target has already been destroyed: release its storage without
+                    // destroying it again and leave this empty
+                    vptr->deallocate(object, function_storage_size, /*destroy*/ false);
+                    vptr = empty_vtable;
+                    object = nullptr;
+                    throw;
+                }
             }
         }
         else
         {
-            destroy();
-            vptr = other.vptr;
+            // leave this empty should copying the new target throw
+            reset(empty_vtable);
             if (other.object != nullptr)
             {
-                object = vptr->copy(
+                void* new_object = other.vptr->copy(
                     storage, detail::function_storage_size, other.object, /*destroy*/ false);
+                vptr = other.vptr;
+                object = new_object;
             }
-            else { object = nullptr; }
+            else { vptr = other.vptr; }
         }
     }
 
